@@ -120,7 +120,7 @@ def gen():
     order = body_of(okl, r"bool\s+pathHasValidOklLoopOrdering\(", "pathHasValidOklLoopOrdering")
     max_nest = bool(re.search(r"outerLoopCount\s*>\s*3", order)) and bool(re.search(r"innerLoopCount\s*>\s*3", order))
     last = body_of(launcher, r"bool\s+withLauncher::isLastInnerLoop\(forStatement\s*&forSmnt\)\s*\{", "withLauncher::isLastInnerLoop")
-    looks_up = bool(re.search(r"while\s*\(\s*smnt->up\s*\)", last))
+    looks_up = bool(re.search(r"while\s*\(\s*smnt->up\b", last)) and "statementType::functionDecl" in last
 
     # who rewrites @atomic
     atomics = []
